@@ -659,7 +659,12 @@ def oracle_count(c, r):
 
 
 def window_ok(got, S, t0, t1, rate):
-    return any(got == S[i:j] for i in nearest_x(Fraction(t0) * rate) for j in nearest_x(Fraction(t1) * rate) if 0 <= i <= j)
+    """the samples between the sample boundaries of the recording nearest to the two times (a time outside the recording:
+    its first / last boundary)"""
+    n = len(S)
+    I = sorted(set(min(max(k, 0), n) for k in nearest_x(Fraction(t0) * rate)))
+    J = sorted(set(min(max(k, 0), n) for k in nearest_x(Fraction(t1) * rate)))
+    return any(got == S[i:j] for i in I for j in J if i <= j)
 
 
 def oracle_extract(c, r):
@@ -668,7 +673,10 @@ def oracle_extract(c, r):
     S = decode(bytes.fromhex(c["hex"]), w)
     n = len(S)
     t0, t1 = Fraction(c["t0"]), Fraction(c["t1"])
-    if not (0 <= t0 <= t1 and t1 * rate <= n):
+    if not t0 <= t1:
+        # a time range that ends before it starts is rejected (ArgumentError), nothing is extracted
+        if tuple(r[:2]) != ("err", "ArgumentError"):
+            return Failure(dict(sig, clause="reversed-rejected"), f"extractSubwav({c['t0']}, {c['t1']}): a reversed range gave {r[0]} {str(r[1])[:40]}, not ArgumentError")
         return None
     if r[0] == "err":
         return Failure(dict(sig, clause="no-error", exc=r[1]), f"extractSubwav({c['t0']}, {c['t1']}) raised {r[1]}")
@@ -691,7 +699,7 @@ def oracle_split(c, r):
     S = decode(bytes.fromhex(c["hex"]), w)
     n = len(S)
     es = split_entries(c)
-    if any(not (0 <= Fraction(e[0]) < Fraction(e[1]) and Fraction(e[1]) * rate <= n) for e in es):
+    if any(not (0 <= Fraction(e[0]) < Fraction(e[1])) for e in es):
         return None
     if r[0] == "err":
         return Failure(dict(sig, clause="no-error", exc=r[1]), f"harness-level error {r[1]}")
@@ -901,6 +909,16 @@ def corpus():
     yield {"op": "silence", "w": 2, "rate": 8, "d": 0.3}
     yield {"op": "sine", "w": 1, "rate": 8, "d": 0.5, "freq": 2, "amp": None}
     yield {"op": "extract", "w": 1, "rate": 8, "hex": ramp(40, 1), "t0": 0.06, "t1": 0.40}
+    # C16-2 (fixed, 300c9d2): a window that starts outside the recording made setpos raise wave.Error (QueryWav) where the
+    # in-memory path wrapped around; both now address the first / last sample of the recording
+    for w in WIDTHS:
+        yield {"op": "extract", "w": w, "rate": 8, "hex": ramp(16, w), "t0": -0.5, "t1": 0.5}
+        yield {"op": "extract", "w": w, "rate": 8, "hex": ramp(16, w), "t0": 1.5, "t1": 9.0}
+        yield {"op": "extract", "w": w, "rate": 8, "hex": ramp(16, w), "t0": 3.0, "t1": 9.0}
+        yield {"op": "extract", "w": w, "rate": 8, "hex": ramp(16, w), "t0": -2.0, "t1": -1.0}
+        # C16-3 (fixed, 0a07868): a reversed range wrote an empty file; it is an ArgumentError now (QueryWav.getFrames)
+        yield {"op": "extract", "w": w, "rate": 8, "hex": ramp(16, w), "t0": 0.5, "t1": 0.25}
+        yield {"op": "extract", "w": w, "rate": 8, "hex": ramp(16, w), "t0": 0.5, "t1": -0.25}
     # splitAudioOnTier
     words = [[0.5, 1.0, "a"], [1.0, 2.0, "b"], [3.0, 4.5, "a"]]
     others = [{"k": "I", "name": "phones", "es": [[0.5, 0.75, "p"], [0.75, 1.5, "q"], [3.5, 4.0, "r"]]},
@@ -1136,6 +1154,10 @@ def gen_split(rnd):
     c["mkdir"] = rnd.random() < 0.8
     if rnd.random() < 0.03:
         c["tg"]["tiers"][0]["es"] = []
+    if rnd.random() < 0.06:
+        # a TextGrid longer than the recording: the entries beyond its end get the clamped (possibly empty) window
+        keep = rnd.randint(1, n)
+        c["hex"] = h[: keep * w * 2]
     return c
 
 
@@ -1162,10 +1184,15 @@ def gen(rnd, tier):
         t1 = pos_time(rnd, ks[1], rate, rnd.choice(kinds)) if ks[1] < n else n / float(rate)
         if t0 > t1 and rnd.random() < 0.9:
             t0, t1 = t1, t0
-        if rnd.random() < 0.05:
-            t1 = (n + 2) / float(rate)
-        if rnd.random() < 0.03:
-            t0 = (n + 1) / float(rate)
+        if rnd.random() < 0.08:
+            t1 = rnd.choice([(n + 2) / float(rate), (n + 0.25) / float(rate), n / float(rate) + 1.0, 2.0 * n / rate + 3.5, 1e6])
+        if rnd.random() < 0.04:
+            t0 = rnd.choice([(n + 1) / float(rate), (n + 0.75) / float(rate), n / float(rate) + 0.5])
+            t1 = max(t1, t0 + rnd.choice([0.0, 1.0 / rate, 1.0]))
+        if rnd.random() < 0.08:
+            t0 = rnd.choice([-1.0 / rate, -0.25 / rate, -0.5, -(n + 1.0) / rate, -1e6, -rnd.randint(1, 40) / 8.0])
+            if rnd.random() < 0.2:
+                t1 = rnd.choice([t0, t0 / 2, -0.125 / rate])
         yield {"op": "extract", "w": w, "rate": rate, "hex": h, "t0": t0, "t1": t1}
     for _ in range(400 * m):
         yield gen_split(rnd)
